@@ -368,4 +368,66 @@ impl Family for TallyFamily {
     fn run(&self, _prop: &str, case: &TCase, ctx: &mut CaseCtx) -> Result<(), Violation> {
         run_tcase(case, ctx)
     }
+    fn decode(&self, _prop: &str, u: &mut arbitrary::Unstructured) -> Option<TCase> {
+        Some(decode_tcase(u))
+    }
+}
+
+/// byte decoder (fuzz front-end)
+pub fn decode_tcase(u: &mut arbitrary::Unstructured) -> TCase {
+    use vcore::amounts::{arb_below, arb_u64};
+    let total: u64 = match arb_below(u, 6) {
+        0 | 1 => arb_below(u, 13) as u64,
+        2 => 13 + u.arbitrary::<u16>().unwrap_or(0) as u64 % 10_000,
+        _ => arb_u64(u),
+    };
+    let pct = |u: &mut arbitrary::Unstructured, lo: u128| -> u128 {
+        let v = match arb_below(u, 5) {
+            0 => lo.max(1),
+            1 => ONE,
+            2 => (u.arbitrary::<u32>().unwrap_or(0) as u128 % 1_000_000_001) * 1_000_000_000,
+            3 => {
+                // a hair above j/base
+                let base = (total as u128).saturating_sub(arb_below(u, 3) as u128).max(1);
+                let j = (u.arbitrary::<u64>().unwrap_or(0) as u128) % (base + 1);
+                let d = arb_below(u, 4) as u128;
+                if arb_below(u, 2) == 0 {
+                    (j * 1_000_000_000 / base + d) * 1_000_000_000
+                } else {
+                    j * ONE / base + d
+                }
+            }
+            _ => u.arbitrary::<u64>().unwrap_or(0) as u128 % (ONE + 1),
+        };
+        v.clamp(lo.max(1), ONE)
+    };
+    let thr = match arb_below(u, if total == 0 { 2 } else { 3 }) {
+        0 => Thr::Pct(pct(u, ONE / 2)),
+        1 => Thr::Quorum { threshold: pct(u, ONE / 2), quorum: pct(u, 0) },
+        _ => Thr::Count(1 + (u.arbitrary::<u64>().unwrap_or(0) % total)),
+    };
+    let mut r = [0u8; 5];
+    for x in r.iter_mut() {
+        *x = arb_below(u, 9) as u8;
+    }
+    let d = |u: &mut arbitrary::Unstructured| arb_below(u, 5) as i8 - 2;
+    let mode = match arb_below(u, 12) {
+        0..=2 => Mode::Fractions,
+        3 => Mode::AllAbstain,
+        4 => Mode::AllVeto,
+        5 => Mode::Nothing,
+        6 => Mode::AllYes,
+        7 => Mode::YesBoundaryOpen(d(u)),
+        8 | 9 => Mode::YesBoundaryExpired(d(u)),
+        10 => Mode::QuorumBoundary(d(u)),
+        _ => Mode::NoBoundary(d(u)),
+    };
+    let when = match arb_below(u, 3) {
+        0 => When::Before,
+        1 => When::AtExpiry,
+        _ => When::After,
+    };
+    let n = arb_below(u, 4);
+    let completions = (0..n).map(|_| [arb_below(u, 401) as u16, arb_below(u, 401) as u16, arb_below(u, 401) as u16, arb_below(u, 401) as u16]).collect();
+    TCase { thr, total, tally: make_tally(thr, total, r, mode), when, completions }
 }
